@@ -204,6 +204,9 @@ def run(tier, seed):
         if el > budget or (not thorough and run_no >= 256):
             break
 
+    n_live = driver.triage_timeouts(all_jobs, all_results)
+    if n_live:
+        log(f"[{PROP}] {n_live} runs do not terminate (liveness)")
     harness = driver.harness_failures(all_results)
     if harness:
         # a run that hangs after an injected fault would be a liveness violation (H5);
